@@ -113,8 +113,8 @@ Proof. exact AT.election_safety_reconf_partial. Qed.
 Print Assumptions C01_election_safety_reconf_partial.
 
 
-(* what remains unproved: election safety under arbitrary configuration changes WITHOUT the Overlap
-   hypothesis (i.e. that applying committed single-step changes in log order, as the fork does,
+(* what remains unproved: election safety for every protocol run under arbitrary configuration changes with
+   neither the Overlap hypothesis nor the per-step checks of steps_ok (see the _checked theorems below) (i.e. that applying committed single-step changes in log order, as the fork does,
    keeps every pair of voter lists a majority was counted over intersecting) *)
 Definition C01_full : Prop :=
   forall (cf : AM.config) (log0 : list AM.entry), AM.init_ok cf log0 ->
@@ -132,6 +132,31 @@ Theorem C01_single_step_remove_overlap : forall (V : list nat) (x : nat), NoDup 
   AA.overlap2b (ZV.RaftAbs.Reconf.remove_nat x V) V = true.
 Proof. exact ZV.RaftAbs.Reconf.single_step_remove_overlap. Qed.
 Print Assumptions C01_single_step_remove_overlap.
+
+
+(* runs checked step by step ("steps_ok": every step additionally satisfies the two decidable conditions the
+   acceptor evaluates — a candidate only wins a term without an elected leader, a leader only commits a prefix
+   comparable with the committed log): arbitrary membership changes, NO Overlap hypothesis. Every accepted
+   implementation trace is such a run (accepted_run_checked, stated in Properties/C03.v). *)
+Theorem C01_election_safety_checked : forall (cf : AM.config) (log0 : list AM.entry), AM.init_ok cf log0 ->
+  forall s, AS.steps_ok (AM.init cf log0) s ->
+  forall i j : nat, AM.rl (AM.nodes s i) = AM.Leader -> AM.rl (AM.nodes s j) = AM.Leader ->
+    AM.cur (AM.nodes s i) = AM.cur (AM.nodes s j) -> i = j.
+Proof. exact AT.election_safety_checked. Qed.
+Print Assumptions C01_election_safety_checked.
+
+Theorem C01_election_safety_history_checked : forall (cf : AM.config) (log0 : list AM.entry), AM.init_ok cf log0 ->
+  forall s, AS.steps_ok (AM.init cf log0) s ->
+  forall (t c : nat) el q (c' : nat) el' q',
+    In (t, c, el, q) (AM.leaders s) -> In (t, c', el', q') (AM.leaders s) -> c = c'.
+Proof. exact AT.election_safety_history_checked. Qed.
+Print Assumptions C01_election_safety_history_checked.
+
+Theorem C01_one_vote_per_term_checked : forall (cf : AM.config) (log0 : list AM.entry), AM.init_ok cf log0 ->
+  forall s, AS.steps_ok (AM.init cf log0) s ->
+  forall j t c c' : nat, In (j, t, c) (AM.grants s) -> In (j, t, c') (AM.grants s) -> c = c'.
+Proof. exact AT.one_vote_per_term_checked. Qed.
+Print Assumptions C01_one_vote_per_term_checked.
 
 (* ---------- non-vacuity ---------- *)
 Example C01_ex_quorum : quorum 1 = 1 /\ quorum 2 = 2 /\ quorum 3 = 2 /\ quorum 4 = 3 /\ quorum 5 = 3.
